@@ -569,6 +569,7 @@ func run(c *vf.Ctx) {
 		c.Distinct(fmt.Sprintf("%d:%s", n, classVec(f, r)))
 	}
 	events = append(events, tableRoutes(c, rng)...)
+	events = append(events, switchWorkers(c, rng)...)
 	rejectAt, inv, tres, err := c.TraceCheck("SwitchLabel_Trace", "SwitchLabel_Trace.cfg", events, vf.TLCOpts{Timeout: 30 * time.Minute, Heap: "8g"})
 	if err != nil {
 		c.Fatal("T: %v", err)
